@@ -18,6 +18,14 @@ if len(sys.argv) > 3 and sys.argv[3] == "edges":
                "  (BaseException vs Exception), re-use of an object after an error, aliasing between objects the API returned earlier\n"
                "  and internal state, calling order nobody tests (query before first write, the same call twice), empty and\n"
                "  maximal sizes, alternate entry points to the same operation (`[]`, `in`, `del`, context managers, classmethods).\n")
+if len(sys.argv) > 3 and sys.argv[3] == "equiv":
+    VARIANT = ("* Prefer changes that break an *equivalence between two ways of doing the same thing* while each way still looks right\n"
+               "  on its own: two entry points documented or obviously meant to be the same (`delete(k)` / `set(k, b\"\")` / `del t[k]`,\n"
+               "  `get` / `[]` / `exists` / `in`, `keys()` / `items()` / `values()`, a bulk call and the sequence of single calls it\n"
+               "  stands for, a fresh object opened on a root and the object that produced that root, a result and the same result\n"
+               "  recomputed from what the API returned), operations that should commute or be idempotent (independent keys in either\n"
+               "  order, the same call twice, a write followed by its inverse), and a value read back right after it was written\n"
+               "  through the other entry point.\n")
 if len(sys.argv) > 3 and sys.argv[3] == "state":
     VARIANT = ("* Prefer changes whose effect depends on *state that outlives one call*: memoisation and caches (functools caches, dicts\n"
                "  kept on an object, class or module), attributes set lazily and never refreshed, mutable default arguments, class\n"
